@@ -47,7 +47,7 @@ def LInv (sh : Shared) (it : Iter) : Prop :=
   | .l148 => Y sh it it.i ∧ Exh sh ∧ it.i < sh.src.length
   | .l149 => Y sh it (it.i + 1) ∧ Exh sh ∧ it.i < sh.src.length
   | .done => it.yielded <+: sh.src ∧ (it.q = .iterAll → it.yielded = sh.src) ∧
-             (Sorted sh.src → it.res = some (spec it.q sh.src))
+             (Sorted sh.src → fits it.q sh.src → it.res = some (spec it.q sh.src))
 
 /-- how the shared state may change in one step: only forwards -/
 structure Mono (sh sh' : Shared) : Prop where
@@ -90,27 +90,23 @@ theorem take_snoc {l : List Int} {i : Nat} {x : Int} (h : l[i]? = some x) : l.ta
 /-! ### the consumer's answer -/
 
 theorem answer_stop {sh : Shared} {q : Query} {ys zs : List Int} (hsrc : sh.src = ys ++ zs)
-    (hst : stops q ys = true) (hsorted : Sorted sh.src) : answer sh q ys = spec q sh.src := by
+    (hst : stops q ys = true) (hsorted : Sorted sh.src) (hsm : fits q sh.src) : answer sh q ys = spec q sh.src := by
   have hq : q ≠ .count := by intro h; subst h; simp [stops] at hst
   have : answer sh q ys = gen q ys := by
     unfold answer; cases q <;> simp_all
   rw [this, hsrc, ← gen_stops q ys zs hst]
-  exact gen_eq_spec' q _ (hsrc ▸ hsorted)
+  exact gen_eq_spec' q _ (hsrc ▸ hsorted) (hsrc ▸ hsm)
 where
-  gen_eq_spec' (q : Query) (L : List Int) (hL : Sorted L) : gen q L = spec q L := by
+  gen_eq_spec' (q : Query) (L : List Int) (hL : Sorted L) (hq : fits q L) : gen q L = spec q L := by
     cases q with
     | iterAll => rfl
-    | take k => simp only [gen, spec, islice_take, Res.ofRL]
+    | take k => simp only [gen, spec, islice_take L k hq, Res.ofRL]
     | index i =>
       simp only [gen, spec]
       by_cases h : i ≥ 0
       · rw [if_pos h, nthNext_getIdx L i h]
       · rw [if_neg h]
-    | slice a b c =>
-      simp only [gen, spec]
-      cases h : sliceListPath a b c with
-      | true => simp
-      | false => simp only [Bool.false_eq_true, ↓reduceIte]; rw [islice_eq_slice L a b c h]
+    | slice a b c => exact gen_slice_eq L a b c hq
     | contains x => simp only [gen, spec, containsLoop_eq x L hL]
     | count => rfl
     | before t inc => simp only [gen, spec, beforeLoop_eq t inc L none hL, lastBefore, Option.or_none]
@@ -121,27 +117,27 @@ where
       | some c => simp only [gen, spec, xafterLoop_some t c inc L 0 (by omega), takeAfter, Int.sub_zero]
     | between a b inc => simp only [gen, spec, betweenLoop_eq a b inc L false hL (by simp), sublistBetween]
 
-theorem gen_eq_spec (q : Query) (L : List Int) (hL : Sorted L) : gen q L = spec q L :=
-  answer_stop.gen_eq_spec' q L hL
+theorem gen_eq_spec (q : Query) (L : List Int) (hL : Sorted L) (hq : fits q L) : gen q L = spec q L :=
+  answer_stop.gen_eq_spec' q L hL hq
 
-theorem answer_all {sh : Shared} {q : Query} (he : Exh sh) (hsorted : Sorted sh.src) :
+theorem answer_all {sh : Shared} {q : Query} (he : Exh sh) (hsorted : Sorted sh.src) (hq : fits q sh.src) :
     answer sh q sh.src = spec q sh.src := by
   unfold answer
   cases q with
   | count => simp only [spec]; rw [show sh.len = some sh.src.length from he]
-  | _ => exact gen_eq_spec _ _ hsorted
+  | _ => exact gen_eq_spec _ _ hsorted hq
 
-theorem fast_eq_spec (q : Query) (L : List Int) (hL : Sorted L) : fast q L = spec q L := by
+theorem fast_eq_spec (q : Query) (L : List Int) (hL : Sorted L) (hq : fits q L) : fast q L = spec q L := by
   cases q with
   | contains x => simp [fast, spec, List.elem_eq_mem]
   | index i => rfl
   | slice a b c => rfl
   | count => rfl
   | iterAll => rfl
-  | take k => exact gen_eq_spec (.take k) L hL
-  | before t inc => exact gen_eq_spec (.before t inc) L hL
-  | after t inc => exact gen_eq_spec (.after t inc) L hL
-  | xafter t n inc => exact gen_eq_spec (.xafter t n inc) L hL
-  | between a b inc => exact gen_eq_spec (.between a b inc) L hL
+  | take k => exact gen_eq_spec (.take k) L hL hq
+  | before t inc => exact gen_eq_spec (.before t inc) L hL trivial
+  | after t inc => exact gen_eq_spec (.after t inc) L hL trivial
+  | xafter t n inc => exact gen_eq_spec (.xafter t n inc) L hL trivial
+  | between a b inc => exact gen_eq_spec (.between a b inc) L hL trivial
 
 end Cache
